@@ -190,3 +190,9 @@ pub fn jbytes(v: &Value) -> Vec<u8> {
 pub fn bytes_json(b: &[u8]) -> Value {
     Value::Array(b.iter().map(|x| json!(*x)).collect())
 }
+
+/// Root of the pallas checkout the harness was built against (test data lives
+/// there). `bin/mutant-run` points this at a scratch worktree.
+pub fn repo_root() -> String {
+    std::env::var("PV_REPO").unwrap_or_else(|_| "/repo".to_string())
+}
